@@ -642,6 +642,41 @@ pub fn c14<T: Px>(thorough: bool) -> Vec<CellDef> {
         ));
     }
     {
+        // "cut x tail" doubles (see C02): every exponent field the width can see x every 4th cut position (every one in the
+        // thorough tier) x 3 kept prefixes x every 5-bit tail below the cut x low fill
+        let lim = (n as u64 - 2) * (1 << es) + 8;
+        let exps: Vec<u64> = (1023 - lim..=1023 + lim).step_by(if thorough { 1 } else { 3 }).chain([0u64, 1, 2046]).collect();
+        let ne = exps.len() as u64;
+        let cuts: Vec<u64> = if thorough { (0..52).collect() } else { (0..52).filter(|c| c % 4 == (n as u64) % 4 || *c > 44).collect() };
+        let ncut = cuts.len() as u64;
+        v.push(CellDef::new(
+            "C14",
+            format!("{}/from_f64#cuts", T::name()),
+            Space::func(2 * ne * ncut * 3 * 32 * 2, format!("sign x {} exponent fields x {} cut positions x 3 kept prefixes x every 5-bit tail below the cut x low fill", ne, ncut), move |i| {
+                let mut r = i;
+                let fill = r & 1;
+                r >>= 1;
+                let tail = r & 31;
+                r >>= 5;
+                let pi = r % 3;
+                r /= 3;
+                let c = cuts[(r % ncut) as usize];
+                r /= ncut;
+                let e = exps[(r % ne) as usize];
+                let sgn = r / ne;
+                let below = 52 - c;
+                let tb = below.min(5);
+                let rest = below - tb;
+                let full_c = if c == 0 { 0 } else { (1u64 << c) - 1 };
+                let prefix = match pi { 0 => 0, 1 => full_c, _ => 0x1234_5678_9abc_def1 & full_c };
+                let fillv = if fill == 1 && rest > 0 { (1u64 << rest) - 1 } else { 0 };
+                let man = (prefix << below) | ((tail & ((1 << tb) - 1)) << rest) | fillv;
+                ((sgn << 63) | (e << 52) | man) as u128
+            }),
+            move |k| f64case(f64::from_bits(k as u64)),
+        ));
+    }
+    {
         let targets: Space = if n <= 16 { Space::all(n) } else { Space::list32(alphabet(n, es, true), format!("A({},{},rich)", n, es)) };
         let tdesc = targets.desc.clone();
         let tkey = targets.key;
